@@ -646,7 +646,9 @@ func (db *RockDB) HIncrBy(ts int64, key []byte, field []byte, delta int64) (int6
 		}
 	}
 
-	n += delta
+	if n, err = addInt64(n, delta); err != nil {
+		return 0, err
+	}
 
 	_, err = db.hSetField(ts, false, key, field, FormatInt64ToSlice(n), wb, hindex)
 	if err != nil {
